@@ -353,3 +353,5 @@ import fam_keepalive, fam_wake, fam_tls
 FAMILY["C16"] = fam_keepalive.check
 FAMILY["C12"] = fam_wake.check
 FAMILY["C17"] = fam_tls.check
+import fam_gate
+FAMILY["C14"] = fam_gate.check
